@@ -166,3 +166,7 @@ def dict_lookup(d, k):
 
 def str_len(s):
     return len(s)
+
+
+def singleton(s, x):
+    return set(s) == {x}
